@@ -11,7 +11,7 @@ REAL_LINK = [
 COMMON_ASSUMPTIONS = [
     "sampling, not proof: seeded search over schedules and fault sequences; a clean batch is evidence over the sampled runs only",
     "nothing below the API seam is modelled (CAN arbitration/error frames, UART framing bits, OS buffering)",
-    "built with feature std, without feature send; release profile with overflow-checks and debug-assertions on",
+    "built with feature std, without feature send; release profile with overflow-checks and debug-assertions on; one in 25 seeded runs uses a second, unoptimised build of the same simulator in a process with a 2 MiB stack",
 ]
 
 PROPS = {
